@@ -1163,6 +1163,14 @@ func roundMode(f float64, mode int) float64 {
 }
 
 func (tb *Table) fcmp(op Op, x, y *T) *T {
+	if x == y {
+		switch op {
+		case OFEq, OFLe:
+			return tb.Not(tb.FIsNaN(x))
+		case OFLt:
+			return tb.ff
+		}
+	}
 	if x.Op == OConst && y.Op == OConst {
 		a, b := x.Float(), y.Float()
 		switch op {
@@ -1179,9 +1187,37 @@ func (tb *Table) fcmp(op Op, x, y *T) *T {
 func (tb *Table) FLt(x, y *T) *T { return tb.fcmp(OFLt, x, y) }
 func (tb *Table) FLe(x, y *T) *T { return tb.fcmp(OFLe, x, y) }
 func (tb *Table) FEq(x, y *T) *T { return tb.fcmp(OFEq, x, y) }
+// FIsNaN pushes the NaN test through arithmetic so that the (expensive) arithmetic
+// circuit is not needed to decide it:
+//   NaN(a/b) = NaN(a) | NaN(b) | (a=0 & b=0) | (inf(a) & inf(b))
+//   NaN(a*b) = NaN(a) | NaN(b) | (a=0 & inf(b)) | (inf(a) & b=0)
+//   NaN(a+b) = NaN(a) | NaN(b) | (inf(a) & inf(b) & sign(a) != sign(b))   (a-b: signs equal)
 func (tb *Table) FIsNaN(x *T) *T {
 	if x.Op == OConst {
 		return tb.BoolC(math.IsNaN(x.Float()))
+	}
+	zero := func(t *T) *T { return tb.fcmp(OFEq, t, tb.fpConst(t.S, 0)) }
+	neg := func(t *T) *T { return tb.fcmp(OFLt, t, tb.fpConst(t.S, 0)) }
+	switch x.Op {
+	case OFDiv:
+		a, b := x.X, x.Y
+		return tb.Or(tb.Or(tb.FIsNaN(a), tb.FIsNaN(b)), tb.Or(tb.And(zero(a), zero(b)), tb.And(tb.FIsInf(a), tb.FIsInf(b))))
+	case OFMul:
+		a, b := x.X, x.Y
+		return tb.Or(tb.Or(tb.FIsNaN(a), tb.FIsNaN(b)), tb.Or(tb.And(zero(a), tb.FIsInf(b)), tb.And(tb.FIsInf(a), zero(b))))
+	case OFAdd, OFSub:
+		a, b := x.X, x.Y
+		differ := tb.Not(tb.Eq(neg(a), neg(b)))
+		if x.Op == OFSub {
+			differ = tb.Eq(neg(a), neg(b))
+		}
+		return tb.Or(tb.Or(tb.FIsNaN(a), tb.FIsNaN(b)), tb.And(tb.And(tb.FIsInf(a), tb.FIsInf(b)), differ))
+	case OFNeg, OFAbs:
+		return tb.FIsNaN(x.X)
+	case OFFromSBV, OFFromUBV:
+		return tb.ff
+	case OFToFP:
+		return tb.FIsNaN(x.X)
 	}
 	return tb.mk(OFIsNaN, Bool, x, nil, nil, 0, "")
 }
